@@ -479,7 +479,7 @@ emit_alphabet_check_loop(arg_t *arg, asn1cnst_range_t *range) {
 		OUT("if(st->size %% 4) return -1; /* (size%%4)! */\n");
 		OUT("for(; ch < end; ch += 4) {\n");
 			INDENT(+1);
-			OUT("uint32_t cv = (ch[0] << 24)\n");
+			OUT("uint32_t cv = ((uint32_t)ch[0] << 24)\n");
 			OUT("\t\t| (ch[1] << 16)\n");
 			OUT("\t\t| (ch[2] << 8)\n");
 			OUT("\t\t|  ch[3];\n");
